@@ -44,7 +44,7 @@ BOUND = {
 REQUIRED_CLASSES = [
     'sp_found', 'sp_rejected', 'sp_field_none', 'sp_field_value_only', 'sp_field_with_variance',
     'atom_element', 'atom_isotope', 'atom_rejected', 'weight_blank_raises', 'weight_present', 'mass_absent_raises', 'mass_present',
-    'cold', 'warm', 'nearmiss_hits_other_row', 'nearmiss_rejected', 'attenuation_ok', 'attenuation_array',
+    'cold', 'warm', 'nearmiss_hits_other_row', 'nearmiss_rejected', 'attenuation_ok', 'attenuation_array', 'attenuation_int64', 'attenuation_float32',
 ]
 
 DIR = os.path.dirname(os.path.abspath(atoms_mod.__file__))
@@ -402,6 +402,26 @@ def run_attenuation(case, rec):
                 rec.viol('Material.attenuation_coefficient', 'shape', f'scalar wavelength gave dims {mu.dims}')
                 continue
             judge(mu, [lv], n_value, 'scalar')
+        # other wavelength dtypes: the law does not depend on how the number is stored
+        if lu != 'm':
+            for dtype, tol_note in (('int64', 'int'), ('int32', 'int'), ('float32', 'f32')):
+                for lv in ((1, 2, 20) if tol_note == 'int' else (1.7982, 4.5)):
+                    rec.transitions += 1
+                    rec.states += 1
+                    wl = sc.scalar(lv, unit=lu, dtype=dtype)
+                    try:
+                        mu = mat.attenuation_coefficient(wl)
+                    except (sc.DTypeError, sc.UnitError) as e:
+                        rec.cls('attenuation_dtype_refused_' + type(e).__name__)
+                        continue
+                    got = float(mu.to(unit='1/m', dtype='float64').value)
+                    want = model(wl.value.item() if hasattr(wl.value, 'item') else wl.value, n_value)
+                    rec.validated += 1
+                    err = abs(Fraction(got) - want) / want
+                    if not err <= (Fraction(1, 10**6) if tol_note == 'f32' else Fraction(1, 10**14)):
+                        rec.viol('Material.attenuation_coefficient', 'rel_error_other_dtype', f'{name} lambda={lv!r} {lu} ({dtype}) n={n_value!r} {du}: mu={got!r} 1/m, exact {float(want)!r} (rel {float(err):.3e})', dtype=dtype, wavelength=lv)
+                    else:
+                        rec.cls('attenuation_' + dtype)
         rec.transitions += 1
         rec.states += 1
         try:
